@@ -1,1 +1,60 @@
-From Morfuse Require Import C19.Model C19.Spec.
+(* C19/Properties.v — the property theorems of C19, and nothing else.
+   Every theorem is closed by [exact <lemma>] and followed by Print Assumptions. *)
+From Coq Require Import NArith List Permutation.
+From Morfuse Require Import Base.Arr C19.Model C19.Spec C19.PoolProofs C19.PoolOps C19.Main.
+Import ListNotations.
+Local Open Scope N_scope.
+
+(* For every block size >= 2 and EVERY history of alloc / delete / free-all (destructors may
+   delete other live objects), the trace of the allocator model satisfies the
+   specification monitor of C19/Spec.v: each returned block is not in use, the reported
+   count is allocations minus frees, a new memory block is taken exactly when every slot of
+   every block is in use (freed blocks are reused), a delete destroys exactly what its
+   destructor log says, free-all destroys every live object exactly once. *)
+Theorem C19_every_history_meets_the_spec :
+  forall (bn : nat) (ops : list op), (2 <= bn)%nat ->
+    spec_ok (N.of_nat bn) ops (run bn ops) = true.
+Proof. intros bn ops H. exact (run_ok bn H ops). Qed.
+Print Assumptions C19_every_history_meets_the_spec.
+
+(* The same facts one operation at a time, for every state satisfying the pool invariant
+   (which [pinv_init] establishes and both theorems preserve). *)
+Theorem C19_alloc_returns_a_block_not_in_use :
+  forall bn, (2 <= bn)%nat -> forall st FU a st',
+    pinv bn st FU -> alloc bn st = (a, st') ->
+    exists FU', pinv bn st' FU' /\ ~ In a (plive st FU) /\
+                Permutation (plive st' FU') (a :: plive st FU) /\
+                nblocks st' = nblocks st + grow bn st FU.
+Proof. exact alloc_ok. Qed.
+Print Assumptions C19_alloc_returns_a_block_not_in_use.
+
+Theorem C19_free_releases_exactly_that_block :
+  forall bn, (2 <= bn)%nat -> forall st FU a,
+    pinv bn st FU -> In a (plive st FU) ->
+    exists FU', pinv bn (free st a) FU' /\
+                Permutation (plive st FU) (a :: plive (free st a) FU') /\
+                nblocks (free st a) <= nblocks st.
+Proof. exact free_ok. Qed.
+Print Assumptions C19_free_releases_exactly_that_block.
+
+Theorem C19_count_is_the_number_of_live_blocks :
+  forall bn, (2 <= bn)%nat -> forall st FU,
+    pinv bn st FU -> count bn st = Some (length (plive st FU)).
+Proof. exact count_ok. Qed.
+Print Assumptions C19_count_is_the_number_of_live_blocks.
+
+(* Non-vacuity: a concrete history crossing empty -> partial -> full -> second block ->
+   reuse -> free-all with a destructor that deletes another object; and the monitor does
+   reject a trace that hands out a live block. *)
+Example C19_history_example :
+  map (fun e => (kind e, cnt e, nb e))
+      (run 2 [OAlloc []; OAlloc []; OAlloc [0]; OFree 1; OAlloc []; OFreeAll]) =
+  [ (EAlloc 0 (0, 0), Some 1%nat, 1); (EAlloc 1 (0, 1), Some 2%nat, 1);
+    (EAlloc 2 (1, 0), Some 3%nat, 2); (EFree 1 [1], Some 2%nat, 2);
+    (EAlloc 3 (0, 1), Some 3%nat, 2); (EFreeAll [0; 3; 2], Some 0%nat, 0) ].
+Proof. vm_compute. reflexivity. Qed.
+
+Example C19_monitor_rejects_live_block :
+  spec_ok 2 [OAlloc []; OAlloc []]
+          [ mkEv (EAlloc 0 (0, 0)) (Some 1%nat) 1; mkEv (EAlloc 1 (0, 0)) (Some 2%nat) 1 ] = false.
+Proof. vm_compute. reflexivity. Qed.
